@@ -184,6 +184,7 @@ pub fn dispatch(line: &str) -> String {
     let f0 = req["calls"][0]["fn"].as_str().unwrap_or("").to_string();
     let out = match ty.as_str() {
         _ if f0.starts_with("PathTpc::") => <PathTpcTag as FileEntry>::call(&req),
+        "W_UpdateRes" => <StrapTag as FileEntry>::call(&req),
         "<free>" => run_free(&req),
         "Vec<SpeedLimitPoint>" => <SpeedPointTag as FileEntry>::call(&req),
         "PowerDistributionControlType" => run::<PowerDistributionControlType>(&req, call_pdct),
